@@ -864,6 +864,16 @@ func (fr *frame) callLiteral(st *State, fv *Value, lit *ast.FuncLit, args []*Val
 	if fr.contract != nil && fr.contract.Closures != nil {
 		if c := fr.contract.Closures[fr.litOrd[lit]]; c != nil {
 			nf.contract = c
+			if c.Flags["use"] == "contract" {
+				// modular treatment of a literal that is called / deferred inside its own function: its
+				// contract is applied here (it may mention the locals of the enclosing function) and its
+				// body is verified as a unit of its own (props: "closure": k)
+				if c.Flags == nil {
+					c.Flags = map[string]string{}
+				}
+				c.Flags["locals"] = "true"
+				return fr.applyContractSig(st, nil, fmt.Sprintf("%s$closure%d", shortFuncName(fr.fn), fr.litOrd[lit]), sig, fr.pkg, c, nil, args)
+			}
 		}
 	}
 	if fr.depth >= maxInlineDepth {
